@@ -37,7 +37,7 @@ var c02Templates = []string{
 	`x = index(V, "l")`, `x = index("hello", V)`, `x = length(V)`, `n = split(V, arr)`, `n = split("a b.c", arr, V)`, `n = split(V, arr, V)`,
 	`s = "banana"; n = sub(V, "x", s)`, `s = "banana"; n = sub(/a/, V, s)`, `s = "banana"; n = gsub(V, "x", s)`, `s = "banana"; n = gsub(/a/, V, s)`, `n = gsub(/a/, "x", $V)`, `n = sub(V, V)`,
 	`x = match(V, /a/)`, `x = match("abc", V)`, `x = match(V, V)`,
-	`x = sprintf(V)`, `x = sprintf(V, 1, 2, 3)`, `x = sprintf("%c", V)`, `x = sprintf("%d", V)`, `x = sprintf("%*d", V, 5)`, `x = sprintf("%.*f", V, 1.5)`, `x = sprintf("%5.3s", V)`,
+	`x = sprintf(V)`, `x = sprintf(V, 1, 2, 3)`, `x = sprintf(V, 1, 2, 3); y = sprintf(V, 1); z = sprintf(V)`, `printf V, 1, 2, 3; printf V, 1; printf V`, `x = sprintf("%c", V)`, `x = sprintf("%d", V)`, `x = sprintf("%*d", V, 5)`, `x = sprintf("%.*f", V, 1.5)`, `x = sprintf("%5.3s", V)`,
 	`x = sprintf("%x %o %u %e %g %i %E %G %X", V, V, V, V, V, V, V, V, V)`, `x = sprintf("%-*s|%*c", V, "x", V, 65)`, `printf V`, `printf "%s %d %c\n", V, V, V`, `printf("%5.2f\n", V)`,
 	`x = tolower(V)`, `x = toupper(V)`, `x = int(V)`, `x = sin(V) + cos(V)`, `x = atan2(V, 1)`, `x = atan2(1, V)`, `x = exp(V)`, `x = log(V)`, `x = sqrt(V)`, `x = srand(V); y = rand(); z = srand()`,
 	`x = close(V)`, `x = fflush(V)`, `x = $V`, `$V = 1`, `$(V) = "x y"`, `$V++`, `$V += V`, `x = $V $V`, `NF = V`, `NF += V`, `NF++`, `x = NF; NF = V; x = $0`, `ARGC = V`, `NR = V`, `FNR = V; x = FNR`,
@@ -104,6 +104,7 @@ type c02Case struct {
 	Input  string    `json:"input"`
 	Cfg    c02Config `json:"cfg"`
 	Vars   []string  `json:"vars,omitempty"`
+	Args   []string  `json:"args,omitempty"`
 	Expect string    `json:"expect,omitempty"` // "error": the run must return an error
 }
 
@@ -126,7 +127,7 @@ func c02Exec(c *core.Ctx, cs c02Case, prog *parser.Program) {
 		prog = p
 	}
 	c.Announce(cs)
-	cfg := &interp.Config{Stdin: strings.NewReader(cs.Input), Vars: cs.Vars, Environ: []string{"HOME", "/h"}, ShellCommand: []string{"/bin/true"}}
+	cfg := &interp.Config{Stdin: strings.NewReader(cs.Input), Vars: cs.Vars, Args: cs.Args, Environ: []string{"HOME", "/h"}, ShellCommand: []string{"/bin/true"}}
 	cs.Cfg.apply(cfg)
 	steps := 0
 	vexp.SetStepFn(func() {
@@ -452,8 +453,44 @@ func c02Verify(c *core.Ctx, src string, prog *parser.Program) {
 	}
 }
 
+// (e) var=value operands: the assignment happens in the middle of input
+// processing (main loop or getline), where a failing setter is not fatal
+func c02Operands(c *core.Ctx) {
+	progs := []string{
+		`BEGIN { r = getline; $0 = "a b"; print $1, r, NF }`,
+		`BEGIN { r = getline; r2 = (getline x); print r, r2, x; $0 = "c,d e"; $3 = "z"; print }`,
+		`{ print $1, NF } END { $0 = "c d"; print $2; n = split("a b", arr); print n, 0.5 "" }`,
+		`BEGIN { while ((getline l) > 0) n++; $0 = "a b"; print NF, n; print 1, 2; printf "%s\n", 0.25 }`,
+		`BEGIN { getline; getline; print; a[1, 2] = 3; for (k in a) print k; print substr("abc", RSTART, RLENGTH) }`,
+	}
+	var parsed []*parser.Program
+	for _, p := range progs {
+		parsed = append(parsed, awk.MustParse(p, nil))
+	}
+	names := []string{"FS", "RS", "OFS", "ORS", "CONVFMT", "OFMT", "SUBSEP", "NF", "NR", "FNR", "ARGC", "RSTART", "RLENGTH", "INPUTMODE", "OUTPUTMODE", "FILENAME", "RT", "x", "arr", "ARGV", "getline", "1x"}
+	vals := []string{"[[", "(", "*", "\\xff", "", "a", "ab", "1e30", "-1", "1e6", "2.5", "csv", "xyz", "csv separator=ab", "csv separator=# comment=#", "tsv header", "%d", "%s%s", "%*d", "%", "\\", "a\\nb"}
+	os.WriteFile(filepath.Join(c02Dir, "data"), []byte("l1 x,y\nl2\n\nl4,4\n"), 0o644)
+	for _, name := range names {
+		for _, val := range vals {
+			if !c.Mine() || c.Expired() {
+				continue
+			}
+			c.Add("states", 1)
+			op := name + "=" + val
+			for pi, prog := range parsed {
+				for _, args := range [][]string{{op, "data"}, {"data", op, "data"}, {op}, {"data", op}} {
+					for _, cf := range []c02Config{{false, "default", false}, {true, "csv", false}} {
+						c02Exec(c, c02Case{Part: "e-operand", Src: progs[pi], Input: "s1 s2\ns3\n", Cfg: cf, Args: args}, prog)
+					}
+				}
+			}
+		}
+	}
+}
+
 func c02Run(c *core.Ctx) {
 	c02Dir = c01Dir(c)
+	c02Operands(c)
 	c02Hostile(c)
 	c02Specials(c)
 	c02CSVStates(c)
@@ -482,7 +519,7 @@ func init() {
 		ID:    "C02",
 		Level: "model_checking",
 		Rule: "(a) 120 statement templates x hostile values (nan, +-inf, +-1e30, +-2^63, 2^53+1, 2^31, 1e6+1, negative, fractional, empty, invalid UTF-8, NUL, full-width digit, 70000-byte string, regex/format metacharacters) in every argument position x {Chars} x {default, CSV, TSV, CSV+header} x {no flags, all sandbox flags}; FS/RS/SUBSEP/OFS/ORS/CONVFMT/OFMT = every byte string of length <=2 over 10 bytes; INPUTMODE/OUTPUTMODE strings; programs that must yield an error (runaway recursion, oversized field/NF/ARGC, invalid dynamic regex); " +
-			"(b) every sequence of <=3 of 14 record operations in CSV/TSV/header mode; (c) every accepted source among all sequences of <=3 (thorough <=4) of 45 token atoms, and the C01 program space, under non-default configurations with a VM step budget; " +
+			"(e) 22 variable names x 22 hostile values as var=value operands reached by the main loop or by getline, x 5 programs x 4 operand lists x 2 modes; (b) every sequence of <=3 of 14 record operations in CSV/TSV/header mode; (c) every accepted source among all sequences of <=3 (thorough <=4) of 45 token atoms, and the C01 program space, under non-default configurations with a VM step budget; " +
 			"(d) bytecode verifier: exhaustive exploration of the (ip, stack depth) automaton of every compiled block of every program of (a)-(c) and the repository's sources — no pop below base, equal depth at joins, jump targets on instruction boundaries, operand indexes inside their tables, call arity (holds for ALL inputs of each verified program); state = one program (bytecode_states counts automaton states), transition = one execution",
 		Assumptions: []string{
 			"a Go fatal error (stack exhaustion, concurrent map write) kills the worker; the driver attributes it to the case announced last",
